@@ -30,6 +30,9 @@ RULE = ("bin tables with 1-3 chromosomes (fixed width with short last bin, varia
         "ids (dense view compared up to 20 bins, sparse view for 300); unordered creation (ordered=False / default for an iterable) over the grid number of chunks 1..17 x max_merge {0,1,2,3,4,10,200} x mergebuf "
         "{1,2,7,2e7} (quick: mergebuf rotating; thorough: full cross + 230 chunks with the default max_merge) with sorted-disjoint / interleaved-with-"
         "duplicates-across-chunks / empty-chunk layouts, shuffled chunk order, ensure_sorted, both storage modes, extra columns; "
+        "numeric dtype edges: every (input dtype, stored dtype) pair over int8..int64 / uint8..uint64 (+ integral float64 input) for the count and for an "
+        "extra column, values at min / max / max+1 / min-1 / -1 / 0 of both types, through frame / dict / ordered chunks / unordered chunks: in-range "
+        "values round-trip exactly, a value outside the stored range is refused with a ValueError; "
         "process history: re-iterable input objects (ArrayLoader, list / tuple of chunks, DataFrame, dict) iterated by hand before the creation and fed to "
         "two consecutive creations with different destinations and options; a cooler created and read at a path that is then overwritten by a "
         "different matrix (same / fewer / more bins, other mode, other columns); "
@@ -377,7 +380,7 @@ def parse_model(val):
 def is_valid_input(case):
     """the inputs the property quantifies over: in-range, (upper in symmetric mode), no duplicate key, values fit,
     sorted stream (frame/dict forms are sorted by create_cooler), default checks"""
-    if case.get("kind") == "malformed":
+    if case.get("kind") == "malformed" or case.get("expect") == "refused":
         return False
     return True
 
@@ -416,7 +419,7 @@ def oracle(case, out):
         bad.append(("pixel table columns", [c[0] for c in case["cols"]], out["pixel_columns"]))
     if out["nnz"] != len(exp) or out["info_nnz"] != len(exp):
         bad.append(("nnz", len(exp), out["nnz"]))
-    if case["cols"][0][0] == "count" and out["sum"] != sum(r[2][0] for r in exp):
+    if case["cols"][0][0] == "count" and not case.get("skip_sum") and out["sum"] != sum(r[2][0] for r in exp):
         bad.append(("sum", sum(r[2][0] for r in exp), out["sum"]))
     if out["storage-mode"] != ("symmetric-upper" if case["symm"] else "square"):
         bad.append(("storage-mode", case["symm"], out["storage-mode"]))
@@ -883,6 +886,66 @@ def gen_cases(ctx):
         cur["history"] = {"kind": "overwrite", "prev": prev}
         cases.append(cur)
 
+    # C7. numeric dtype edges of value columns: every (input dtype, stored dtype) pair over the 8 integer types, plus float64
+    #     inputs holding integral in-range values; values at the edges of BOTH types (min, max, max+1 / min-1 of the stored type,
+    #     -1, 0, 1, min / max of the input type).  The verdict is decided from the values and the stored dtype only: all values
+    #     within the stored range -> exact round trip; one value outside -> refused with a ValueError, never stored changed.
+    #     (non-integral or out-of-range FLOAT input into an integer column is known finding D32's silent cast: left out)
+    INTS = ["int8", "int16", "int32", "int64", "uint8", "uint16", "uint32", "uint64"]
+    FORMS = ["frame", "dict", "chunks-df", "chunks-dict", "unordered"]
+    cells5 = [(i, j) for i in range(5) for j in range(i, 5)]
+    e = 0
+    for ind in INTS + ["float64"]:
+        for outd in INTS:
+            oi = np.iinfo(G.np_dtype(outd))
+            olo, ohi = int(oi.min), int(oi.max)
+            if ind == "float64":
+                ilo, ihi = -2 ** 40, 2 ** 40              # integral floats far inside the exact range (sums stay exact)
+            else:
+                ii = np.iinfo(G.np_dtype(ind))
+                ilo, ihi = int(ii.min), int(ii.max)
+            cand = sorted({0, 1, -1, olo, ohi, olo - 1, ohi + 1, ilo, ihi, olo + 1, ohi - 1})
+            cand = [v for v in cand if ilo <= v <= ihi]
+            fit = [v for v in cand if olo <= v <= ohi]
+            unfit = [] if ind == "float64" else [v for v in cand if not (olo <= v <= ohi)]
+            for target in ("count", "extra"):
+                variants = [("fit", fit, None)] + [("unfit", fit, v) for v in (unfit if thorough else ([unfit[0], unfit[-1]][(e // 2) % 2:][:1] if unfit else []))]
+                for verdict, base_vals, bad_v in variants:
+                    for form in (FORMS if thorough else [FORMS[e % len(FORMS)]]):
+                        e += 1
+                        vals = list(base_vals)
+                        if bad_v is not None:
+                            vals.insert((e * 3) % (len(vals) + 1), bad_v)
+                        if target == "count":
+                            cols = [["count", "int", outd, ind]]
+                            rows = [[i, j, [v]] for (i, j), v in zip(cells5, vals)]
+                        else:
+                            cols = [["count", "int", "int32", "int64"], ["x", "int", outd, ind]]
+                            rows = [[i, j, [q + 1, v]] for q, ((i, j), v) in enumerate(zip(cells5, vals))]
+                        case = {"grp": "dtype-edge", "widths": [[4, 4, 1], [4, 2]], "symm": bool(e % 2), "cols": cols, "rows": rows}
+                        if abs(sum(r[2][0] for r in rows)) >= 2 ** 63 or (target == "count" and max(abs(v) for v in vals) >= 2 ** 63):
+                            case["skip_sum"] = True               # wrap-around of the int64 running sum is outside the model
+                        if bad_v is not None:
+                            case["expect"] = "refused"
+                            case["offending"] = bad_v
+                        if form in ("frame", "dict"):
+                            case["form"] = form
+                            rr = list(rows)
+                            rng.shuffle(rr)
+                            case["rows"] = rr
+                        else:
+                            k = 3
+                            marks = sorted(rng.randint(0, len(rows)) for _ in range(k - 1))
+                            edges = [0] + marks + [len(rows)]
+                            case["cuts"] = [b_ - a for a, b_ in zip(edges[:-1], edges[1:])]
+                            case["chunkforms"] = [("df" if form == "chunks-df" else "dict") if form != "unordered" else ["dict", "df"][(e + q) % 2] for q in range(k)]
+                            if form == "unordered":
+                                case["form"] = "unordered"
+                                case["rep"] = {"unordered": {"order": [2, 0, 1], "mergebuf": [2, 20_000_000][e % 2]}}
+                            else:
+                                case["form"] = "chunks"
+                        cases.append(case)
+
     # D. ArrayLoader, every chunksize 1..n+1
     for n in (range(1, 8) if thorough else (1, 2, 3, 4, 6)):
         for rep in range(3 if thorough else 1):
@@ -982,7 +1045,8 @@ def check_case(ctx, case, out, mo):
     if out.get("result") == "ok" and mo["result"] == "ok" and "read_error" not in out:
         ctx.compare("raw HDF5 columns", case, out["raw"], mo["raw"])
         ctx.compare("nnz attribute", case, out["nnz"], mo["nnz"])
-        ctx.compare("sum attribute", case, out["sum"], mo["sum"])
+        if not case.get("skip_sum"):
+            ctx.compare("sum attribute", case, out["sum"], mo["sum"])
         ctx.compare("storage-mode", case, out["storage-mode"], "symmetric-upper" if mo["symm"] else "square")
         ctx.compare("pixels()[:]", case, out["pixels"], mo["pixels"])
         if in_model_scope(case, out, mo):
@@ -991,6 +1055,13 @@ def check_case(ctx, case, out, mo):
     elif out.get("result") == "ok" and "read_error" in out and not case.get("skip_read"):
         ctx.disagree("read back", case, out["read_error"], "ok")
     # 2. property oracle
+    if case.get("expect") == "refused":
+        # a value outside the range of the stored dtype must be refused with an error - never stored as some other value
+        if out.get("result") == "ok":
+            ctx.fail(case, {"violations": [["a value that does not fit the stored dtype was accepted", str(case["offending"]),
+                                            str(out.get("pixels", out.get("read_error")))[:300]]]}, None)
+        elif out.get("result") not in ("ErrRange", "ValueError", "OverflowError"):
+            ctx.fail(case, {"violations": [["refused, but not with a ValueError about the dtype", "ValueError", str(out.get("result"))]]}, None)
     if valid:
         bad = oracle(case, out)
         if bad:
